@@ -2,6 +2,7 @@
   Request dispatch of the model driver (pure part: `handleLine`).
 -/
 import Fsel.Model.Json
+import Fsel.Model.Main
 
 namespace Fsel
 
@@ -33,14 +34,121 @@ def hexOfStr (s : Str) : String :=
 
 def unhexAll (xs : List String) : Option (List Str) := xs.mapM unhex
 
+/-- one `node` line of the snapshot protocol -/
+structure NodeLine where
+  depth : Nat
+  e : Entry
+  unlistable : Bool
+  zip : Option (List ArcInfo)
+
 structure DriverState where
-  dummy : Nat := 0
+  nodes : List NodeLine := []        -- reversed
+  rootCanon : Str := []
+  cwd : Str := []
+  fs : Option FSnap := none
+  cfg : Config := {}
 
 def DriverState.init : DriverState := {}
 
 def PErr.toText : PErr → String
   | .msg m => "msg:" ++ m
   | .unsupported w => "unsupported:" ++ w
+
+def natOf (s : String) : Nat := s.toNat?.getD 0
+def intOf (s : String) : Int := s.toInt?.getD 0
+
+def parseMember (s : String) : Option ArcInfo :=
+  match s.splitOn ":" with
+  | [n, sz, md, mt] =>
+    match unhex n with
+    | some name => some { name := name, size := natOf sz, mode := if md == "-" then none else some (natOf md),
+                          modified := if mt == "-" then none else some (intOf mt) }
+    | none => none
+  | _ => none
+
+def applyFact (nl : NodeLine) (kv : String) : NodeLine :=
+  match kv.splitOn "=" with
+  | [k, v] =>
+    let e := nl.e
+    if k == "nl" then { nl with e := { e with lineCount := some (natOf v) } }
+    else if k == "sb" then { nl with e := { e with shebang := v == "1" } }
+    else if k == "sha1" then { nl with e := { e with sha1 := v.toList } }
+    else if k == "sha256" then { nl with e := { e with sha256 := v.toList } }
+    else if k == "sha512" then { nl with e := { e with sha512 := v.toList } }
+    else if k == "sha3" then { nl with e := { e with sha3 := v.toList } }
+    else if k == "text" then { nl with e := { e with text := unhex v } }
+    else if k == "empty" then { nl with e := { e with dirEmpty := some (v == "1") } }
+    else if k == "xa" then { nl with e := { e with hasXattrs := some (v == "1") } }
+    else if k == "caps" then { nl with e := { e with caps := (unhex v).getD [], hasCapsXattr := some true } }
+    else if k == "nocaps" then { nl with e := { e with hasCapsXattr := some false } }
+    else if k == "xattr" then
+      match v.splitOn ":" with
+      | [a, b] => { nl with e := { e with xattrs := e.xattrs ++ [((unhex a).getD [], if b == "!" then none else unhex b)] } }
+      | _ => nl
+    else if k == "real" then { nl with e := { e with absPath := unhex v } }
+    else if k == "unlistable" then { nl with unlistable := v == "1" }
+    else if k == "zip" then
+      if v == "corrupt" then { nl with zip := none }
+      else if v == "empty" then { nl with zip := some [] }
+      else { nl with zip := (v.splitOn ";").mapM parseMember }
+    else nl
+  | _ => nl
+
+def parseNodeLine (fields : List String) : Option NodeLine :=
+  match fields with
+  | depth :: name :: kind :: size :: mode :: uid :: gid :: nlink :: ino :: dev :: blocks :: mtime :: user :: group :: facts =>
+    match unhex name with
+    | none => none
+    | some nm =>
+      let e : Entry := { name := nm, path := [], absPath := none, absDir := none,
+                         kind := (kind.toList.headD '?'), size := natOf size, mode := natOf mode, uid := natOf uid,
+                         gid := natOf gid, nlink := natOf nlink, ino := natOf ino, dev := natOf dev,
+                         blocks := natOf blocks, mtime := intOf mtime,
+                         user := if user == "!" then none else unhex user,
+                         group := if group == "!" then none else unhex group }
+      some (facts.foldl applyFact { depth := natOf depth, e := e, unlistable := false, zip := none })
+  | _ => none
+
+/-- rebuild the tree from the pre-order node list -/
+def buildNodes : Nat → Nat → List NodeLine → List Node × List NodeLine
+  | 0, _, ls => ([], ls)
+  | _ + 1, _, [] => ([], [])
+  | fuel + 1, depth, l :: ls =>
+    if l.depth < depth then ([], l :: ls)
+    else if l.depth > depth then ([], l :: ls)   -- malformed: caller stops
+    else if l.e.kind == 'd' then
+      let (kids, rest) := buildNodes fuel (depth + 1) ls
+      let (sibs, rest2) := buildNodes fuel depth rest
+      (Node.dir l.e (!l.unlistable) kids :: sibs, rest2)
+    else
+      let (sibs, rest) := buildNodes fuel depth ls
+      (Node.leaf l.e l.zip :: sibs, rest)
+
+def cfgApply (c : Config) (kv : String) : Config :=
+  match kv.splitOn "=" with
+  | [k, v] =>
+    let lst : List Str := if v == "" then [] else (v.splitOn ",").filterMap unhex
+    if k == "today" then { c with today := intOf v }
+    else if k == "size_format" then { c with sizeFormat := (unhex v).getD [] }
+    else if k == "is_zip_archive" then { c with zipExts := lst }
+    else if k == "is_archive" then { c with archive := lst }
+    else if k == "is_audio" then { c with audio := lst }
+    else if k == "is_book" then { c with book := lst }
+    else if k == "is_doc" then { c with doc := lst }
+    else if k == "is_font" then { c with font := lst }
+    else if k == "is_image" then { c with image := lst }
+    else if k == "is_source" then { c with source := lst }
+    else if k == "is_video" then { c with video := lst }
+    else if k == "gitignore" then { c with gitignore := some (v == "1") }
+    else if k == "hgignore" then { c with hgignore := some (v == "1") }
+    else if k == "dockerignore" then { c with dockerignore := some (v == "1") }
+    else c
+  | _ => c
+
+def outcomeText : Outcome → String
+  | .exit code out errs inex unord =>
+    s!"exit {code} {hexOfStr out} {if inex then 1 else 0}{if unord then 1 else 0} " ++ String.intercalate "," (errs.map hexOfStr)
+  | .unsupported w => "unsupported " ++ w
 
 def handleLine (st : DriverState) (line : String) : DriverState × String :=
   match line.splitOn "\t" with
@@ -55,6 +163,29 @@ def handleLine (st : DriverState) (line : String) : DriverState × String :=
       match parseQuery parts with
       | .ok q => (st, "ok " ++ String.ofList q.toJson)
       | .error e => (st, "err " ++ e.toText)
+  | "fs-begin" :: rc :: cwd :: _ =>
+    match unhex rc, unhex cwd with
+    | some r, some c => ({ st with nodes := [], rootCanon := r, cwd := c, fs := none }, "ok")
+    | _, _ => (st, "bad-op")
+  | "node" :: fields =>
+    match parseNodeLine fields with
+    | some nl => ({ st with nodes := nl :: st.nodes }, "ok")
+    | none => (st, "bad-op")
+  | "fs-end" :: topFields =>
+    match parseNodeLine topFields with
+    | none => (st, "bad-op")
+    | some top =>
+      let ls := st.nodes.reverse
+      let (kids, rest) := buildNodes (2 * ls.length + 2) 1 ls
+      if !rest.isEmpty then (st, "bad-op")
+      else
+        let fs : FSnap := { rootCanon := st.rootCanon, top := .dir top.e (!top.unlistable) kids, cwd := st.cwd }
+        ({ st with fs := some fs, nodes := [] }, "ok")
+  | "cfg" :: kvs => ({ st with cfg := kvs.foldl cfgApply {} }, "ok")
+  | "run" :: args =>
+    match st.fs, unhexAll args with
+    | some fs, some argv => (st, outcomeText (runMain fs st.cfg argv))
+    | _, _ => (st, "bad-op")
   | _ => (st, "bad-op")
 
 end Fsel
